@@ -39,6 +39,8 @@ type Violation struct {
 	Detail   string   `json:"detail"`
 	Class    string   `json:"class"` // coarse detail class used for known-finding matching
 	Ops      []string `json:"ops"`   // distinct operation names of the (minimised) program
+	// Ctx holds structured facts about the failing case that KNOWN_FINDINGS.json entries match on.
+	Ctx map[string]interface{} `json:"ctx,omitempty"`
 }
 
 func (v *Violation) Same(o *Violation) bool {
@@ -54,13 +56,13 @@ type stepRec struct {
 
 type C19Stats struct {
 	Programs, Ops, OpsOK, OpsErr, OpsPanic uint64
-	Families                              map[string]uint64
-	OpNames                               map[string]uint64
-	Pool                                  PoolStats
-	CallerScribbles, FinalizersFired      uint64
+	Families                               map[string]uint64
+	OpNames                                map[string]uint64
+	Pool                                   PoolStats
+	CallerScribbles, FinalizersFired       uint64
 	FaultsFired, DenseFull, DenseRotations uint64
-	NontrivialDigests                     map[uint64]struct{}
-	Samples                               []interface{}
+	NontrivialDigests                      map[uint64]struct{}
+	Samples                                []interface{}
 }
 
 func newC19Stats() *C19Stats {
@@ -223,7 +225,7 @@ func runAdv(seed uint64, cfg *C19Config, prog []Op, recs []stepRec, st *C19Stats
 			ar := RNG{s: op.Adv ^ 0x5eed}
 			w.callerScribble()
 			if ar.Intn(3) > 0 {
-				env.Step(&ar, &P.stats)
+				env.Step(&ar)
 			}
 			if ar.Intn(6) == 0 {
 				tensor.VerifRotateDensePool(1 + ar.Intn(5))
@@ -275,6 +277,7 @@ func runAdv(seed uint64, cfg *C19Config, prog []Op, recs []stepRec, st *C19Stats
 			st.FinalizersFired += F[c].fired
 		}
 		addPoolStats(&st.Pool, &P.stats)
+		addPoolStats(&st.Pool, &env.st)
 	}
 	digest = fnvU64(digest, P.digest)
 	return viol, digest
@@ -405,4 +408,47 @@ func minimiseC19(c *C19Case, v *Violation, budget int) (*C19Case, *Violation) {
 	}
 	bv.Ops = opNames(best.Program)
 	return best, bv
+}
+
+// dumpC19 prints, for triage, the result of every step in both worlds.
+func dumpC19(c *C19Case) {
+	for _, adv := range []bool{false, true} {
+		resetGlobals(adv)
+		P.recycleNum, P.dropDen, P.policy = c.Config.RecycleNum, c.Config.DropDen, c.Config.Policy
+		if adv && c.Config.DensePre > 0 {
+			tensor.VerifFillDensePool(c.Config.DensePre)
+		}
+		w := newWorld(adv)
+		w.eng = &FaultEng{st: &faultState{}}
+		var env Env
+		fmt.Printf("---- world adversarial=%v\n", adv)
+		for k := range c.Program {
+			op := c.Program[k]
+			w.step = k
+			if adv {
+				P.BeginOp(0, op.Adv)
+			}
+			o := w.Exec(&op)
+			if adv && op.Adv != 0 {
+				ar := RNG{s: op.Adv ^ 0x5eed}
+				w.callerScribble()
+				if ar.Intn(3) > 0 {
+					env.Step(&ar)
+				}
+				if ar.Intn(6) == 0 {
+					tensor.VerifRotateDensePool(1 + ar.Intn(5))
+				}
+			}
+			P.BeginOp(0, 0)
+			if !adv {
+				tensor.VerifDrainChanPools()
+			}
+			fmt.Printf("step %d %s -> %s %s\n", k, op.Name, outStr(o), w.lastErr)
+			if t := w.get(op.Out); t != nil && o.St == stOK {
+				fmt.Printf("      out[%d] = %+v\n", op.Out, fullSnap(t))
+			}
+			w.lastErr = ""
+		}
+		env.Flush()
+	}
 }
